@@ -20,12 +20,18 @@ PROVED = ("C03_layout: EVERY archive create returns satisfies Clm.Spec.WF (no hy
           "(any chunks before/between, anything after the data; common 16 format bytes; names <= 8 without NUL, distinct ignoring "
           "case; fitting 32 bits) creation and reopening succeed, names/sizes/streams are the sources' and every extraction is a "
           "SelfConsistentWav with the common format; C03_bytes_are_reference: the archive equals Spec.encode of (name, data) in "
-          "sorted order byte for byte; C03_order_independent; C03_names_sorted(_bare): names strictly increasing ignoring case; "
-          "C03_refusals / C03_duplicates_refused(_bare): not RIFF/WAVE, differing formats, name > 8, equal names => err, never a hang; "
+          "sorted order byte for byte; C03_order_independent; C03_names_sorted(_bare/_dirs): names strictly increasing ignoring case; "
+          "C03_refusals / C03_duplicates_refused(_bare/_dirs): not RIFF/WAVE, differing formats, name > 8, equal names => err, never a hang; "
+          "_dirs = unconditionally for every mix of bare stem[.ext] and dir/stem[.ext] paths, dir ANY byte string (relative, rooted, "
+          "several levels, doubled separators, empty), stems over the property's alphabet (C03_order_compatible_dirs); "
+          "C03_dir_transparent / C03_dir_names: filename() and the stored name of B/n are those of n for every B except the lone \"/\" "
+          "(C03_rootname_names: \"//stem.ext\" is a root name, its file name is the whole string and its name \"//stem\"; the order "
+          "results hold there too since '/' sorts above '.'); "
           "intake_desc (walk skips every other chunk, cursor never wraps); 7 bridging lemmas on generated layout/constants")
 PARTIAL = ("the path functions filename()/replace_extension() are a trusted-base model; that sorting by file name sorts the stripped "
-           "names is proved for bare stem[.ext] paths over the property's alphabet (C03_names_sorted_bare) and otherwise under the "
-           "explicit order-compatibility hypothesis; paths with directories are tied by the correspondence run only")
+           "names is proved for bare and directory-qualified stem[.ext] paths over the property's alphabet (C03_names_sorted_bare, "
+           "C03_names_sorted_dirs: any directory part) and otherwise - stems with bytes at or below '.', several dots, a trailing "
+           "separator - under the explicit order-compatibility hypothesis")
 TRUSTED = ["std::sort returns a sorted permutation", "std::experimental::filesystem::path filename()/replace_extension() (model Op2Model/Path.lean)",
            "FileReader/FileWriter deliver and store bytes as the C12/C14 models say"]
 ASSUMPTIONS = ["paths contain no NUL byte and name existing regular files"]
